@@ -703,6 +703,33 @@ def k_reserved_column(f, rng):
     return e
 
 
+@kind("choice-without-list-name", 2)
+def k_choice_no_list(f, rng):
+    """A choices row with content but an empty list_name cell belongs to no list: refused (it used to vanish without a word)."""
+    ln = pick(rng, sorted(f.choices))
+    if not ln or len(f.choices[ln]) < 2:
+        return None
+    ch = dict(pick(rng, f.choices[ln]))
+    ch["name"] = "orphan_" + str(rng.randrange(100))
+    e = Exp(r"On the 'choices' sheet, the 'list_name' value is invalid\. Choices must have a list name", "none")
+
+    def patch(sheets, fmt):
+        h, rows = sheets["choices"]
+        li = 0  # list_name is the first column
+        src = next((r for r in rows if r[li] == ln), None)
+        if src is None:
+            return sheets
+        new = list(src)
+        new[li] = None
+        if "name" in h:
+            new[h.index("name")] = ch["name"]
+        at = rng.randint(1, len(rows))
+        sheets["choices"] = (h, rows[:at] + [new] + rows[at:])
+        return sheets
+    e.patch = patch
+    return e
+
+
 @kind("choice-duplicate-name", 3)
 def k_choice_dup(f, rng):
     ln = pick(rng, sorted(f.choices))
